@@ -147,12 +147,13 @@ func stageSet(p *Project, files ...string) {
 func crashScenarios(r *rng, tier string) []crashScenario {
 	tree := func(r *rng, big bool) *Node {
 		var pool [][]byte
-		to := treeOpts{maxDepth: 1, maxFan: 3}
+		to := treeOpts{maxDepth: 1, maxFan: 3, siblings: true}
 		if big {
-			to = treeOpts{maxDepth: 2, maxFan: 6}
+			to = treeOpts{maxDepth: 2, maxFan: 6, siblings: true}
 		}
 		t := genTree(r, 0, to, &pool, nil)
 		t.set("always", nFile([]byte("always here")))
+		t.set("always.dud-link", nFile([]byte("a tracked file that merely looks like a temporary name")))
 		t.set("sub", nDir(Ent{"inner", nFile([]byte("inner file"))}))
 		return t
 	}
